@@ -586,6 +586,13 @@ func (r *multiCIDRRangeAllocator) occupyCIDRs(logger klog.Logger, node *corev1.N
 			occupiedCount := 0
 			attempts++
 
+			// Occupy nothing in a ClusterCIDR that cannot hold all the node CIDRs: a partial
+			// occupation has no association and would never be released.
+			if !r.canOccupyAll(clusterCIDR, node.Spec.PodCIDRs) {
+				logger.V(3).Info("ClusterCIDR cannot hold all node cidrs, trying next range", "podCIDRs", node.Spec.PodCIDRs, "clusterCIDR", clusterCIDR.Name)
+				continue
+			}
+
 			for _, cidr := range node.Spec.PodCIDRs {
 				_, podCIDR, err := netutil.ParseCIDRSloppy(cidr)
 				if err != nil {
@@ -613,6 +620,27 @@ func (r *multiCIDRRangeAllocator) occupyCIDRs(logger klog.Logger, node *corev1.N
 	}(node)
 
 	return err
+}
+
+// canOccupyAll reports whether every one of the given CIDRs intersects the range the ClusterCIDR has
+// for its ip family, i.e. whether Occupy would succeed for all of them. CIDRs that do not parse are
+// left to the caller to report.
+func (r *multiCIDRRangeAllocator) canOccupyAll(clusterCIDR *cidrset.ClusterCIDR, cidrs []string) bool {
+	for _, cidr := range cidrs {
+		_, podCIDR, err := netutil.ParseCIDRSloppy(cidr)
+		if err != nil {
+			return true
+		}
+		cidrSet, err := r.associatedCIDRSet(clusterCIDR, podCIDR)
+		if err != nil || cidrSet == nil {
+			return false
+		}
+		clusterRange := cidrSet.ClusterCIDR
+		if !clusterRange.Contains(podCIDR.IP.Mask(clusterRange.Mask)) && !podCIDR.Contains(clusterRange.IP.Mask(podCIDR.Mask)) {
+			return false
+		}
+	}
+	return true
 }
 
 // associatedCIDRSet returns the CIDRSet, based on the ip family of the CIDR.
